@@ -42,8 +42,8 @@ class BlockDiagonalOperator(EndomorphicOperator):
         # Blocks may be arbitrary linear operators (e.g. chains or sums that
         # result from combining block diagonal operators): only endomorphic
         # operators know a sampling dtype.
-        self._dtype = {kk: getattr(oo, "sampling_dtype", None)
-                       for kk, oo in operators.items()}
+        self._dtype = {kk: getattr(operators.get(kk), "sampling_dtype", None)
+                       for kk in domain.keys()}
         if all(vv is None for vv in self._dtype.values()):
             self._dtype = None
         check_dtype_or_none(self._dtype, self._domain)
@@ -76,7 +76,7 @@ class BlockDiagonalOperator(EndomorphicOperator):
         val = []
         for op, key in zip(self._ops, self._domain.keys()):
             if op is None:
-                if self._dtype is None or key not in self._dtype:
+                if self._dtype is None or self._dtype.get(key) is None:
                     raise RuntimeError("Need to specify dtype for all operators "
                                        f"that are set to None (key: {key}).")
                 a = from_random(self._domain[key], 'normal', dtype=self.sampling_dtype[key],
